@@ -26,7 +26,7 @@ fn c07_find_stuff_sequence_bounded() {
     let s = &buf[..len];
     let r = find_stuff_sequence(s);
     let j: usize = kani::any();
-    kani::assume(j + 1 < len);
+    kani::assume(j < L && j + 1 < len);
     let stuff_at_j = s[j] == 0xfe && s[j + 1] == 0xfd;
     match r {
         Some(i) => {
